@@ -1,1232 +1,11 @@
 // C06: truncated or mistyped input is rejected, never decoded into made-up data.
 //
-// For every baseline encoding (reference-encoded) of every subject
-//
-//	struct  every struct of tars/protocol/res/*.tars, decoded by the generated
-//	        ReadFrom; schema from the .tars files through verif/ref's own reader
-//	block   the same structs framed as a field, decoded by ReadBlock
-//	prim    one primitive field (every primitive type x require/optional x tag
-//	        classes), decoded by codec.Reader.Read<T>
-//	slice   one byte-vector field decoded the way generated code does
-//	        (SkipToNoCheck / SkipTo(BYTE) / ReadInt32 / ReadSlice[U]int8)
-//	tup     attribute sets decoded by tup.UniAttribute.Decode
-//
-// the check enumerates every proper prefix, every inflation of every embedded
-// length to values larger than what remains, every substitution of one field
-// (at any nesting level) by a well-formed field of every inadmissible wire
-// type, and every other type code in a SimpleList's element head.  Oracle: the
-// strict reference decoder of verif/ref.  The implementation must return an
-// error, or succeed with exactly the value of the complete top-level fields
-// present (absent optionals at their defaults); a mistyped field must be
-// rejected.
+// Bootstrap stage (shared with C03/C04): builds the IDL corpus of verif/gen with the
+// working-tree tars2go and a driver that registers every corpus struct; the check
+// itself is verif/checks/c06/lib, run on the framework's structs, primitive fields,
+// byte vectors, TUP attribute sets and every corpus struct.
 package main
 
-import (
-	"encoding/binary"
-	"encoding/hex"
-	"fmt"
-	"path/filepath"
-	"reflect"
-	"runtime"
-	"runtime/debug"
-	"sort"
-	"strings"
-	"sync"
-	"sync/atomic"
-	"time"
-	"unsafe"
+import c03lib "verif/checks/c03/lib"
 
-	"github.com/TarsCloud/TarsGo/tars/protocol/codec"
-	"github.com/TarsCloud/TarsGo/tars/protocol/res/authf"
-	"github.com/TarsCloud/TarsGo/tars/protocol/res/configf"
-	"github.com/TarsCloud/TarsGo/tars/protocol/res/endpointf"
-	"github.com/TarsCloud/TarsGo/tars/protocol/res/logf"
-	"github.com/TarsCloud/TarsGo/tars/protocol/res/nodef"
-	"github.com/TarsCloud/TarsGo/tars/protocol/res/notifyf"
-	"github.com/TarsCloud/TarsGo/tars/protocol/res/propertyf"
-	"github.com/TarsCloud/TarsGo/tars/protocol/res/requestf"
-	"github.com/TarsCloud/TarsGo/tars/protocol/res/statf"
-	"github.com/TarsCloud/TarsGo/tars/protocol/tup"
-	"verif/common"
-	"verif/ref"
-)
-
-type tarsStruct interface {
-	ReadFrom(*codec.Reader) error
-	ReadBlock(*codec.Reader, byte, bool) error
-}
-
-// Go types of the res structs, by IDL name.
-var goTypes = map[string]func() tarsStruct{
-	"requestf::RequestPacket":    func() tarsStruct { return new(requestf.RequestPacket) },
-	"requestf::ResponsePacket":   func() tarsStruct { return new(requestf.ResponsePacket) },
-	"endpointf::EndpointF":       func() tarsStruct { return new(endpointf.EndpointF) },
-	"authf::BasicAuthInfo":       func() tarsStruct { return new(authf.BasicAuthInfo) },
-	"authf::BasicAuthPackage":    func() tarsStruct { return new(authf.BasicAuthPackage) },
-	"authf::TokenKey":            func() tarsStruct { return new(authf.TokenKey) },
-	"authf::AuthRequest":         func() tarsStruct { return new(authf.AuthRequest) },
-	"authf::TokenRequest":        func() tarsStruct { return new(authf.TokenRequest) },
-	"authf::TokenResponse":       func() tarsStruct { return new(authf.TokenResponse) },
-	"authf::ApplyTokenRequest":   func() tarsStruct { return new(authf.ApplyTokenRequest) },
-	"authf::ApplyTokenResponse":  func() tarsStruct { return new(authf.ApplyTokenResponse) },
-	"authf::DeleteTokenRequest":  func() tarsStruct { return new(authf.DeleteTokenRequest) },
-	"propertyf::StatPropMsgHead": func() tarsStruct { return new(propertyf.StatPropMsgHead) },
-	"propertyf::StatPropInfo":    func() tarsStruct { return new(propertyf.StatPropInfo) },
-	"propertyf::StatPropMsgBody": func() tarsStruct { return new(propertyf.StatPropMsgBody) },
-	"statf::StatMicMsgHead":      func() tarsStruct { return new(statf.StatMicMsgHead) },
-	"statf::StatMicMsgBody":      func() tarsStruct { return new(statf.StatMicMsgBody) },
-	"statf::StatSampleMsg":       func() tarsStruct { return new(statf.StatSampleMsg) },
-	"statf::ProxyInfo":           func() tarsStruct { return new(statf.ProxyInfo) },
-	"configf::ConfigInfo":        func() tarsStruct { return new(configf.ConfigInfo) },
-	"configf::GetConfigListInfo": func() tarsStruct { return new(configf.GetConfigListInfo) },
-	"logf::LogInfo":              func() tarsStruct { return new(logf.LogInfo) },
-	"nodef::ServerInfo":          func() tarsStruct { return new(nodef.ServerInfo) },
-	"notifyf::ReportInfo":        func() tarsStruct { return new(notifyf.ReportInfo) },
-}
-
-// subject: a decoder of the implementation plus the schema of its input.
-type subject struct {
-	name   string
-	class  string // struct | block | prim | slice | tup
-	st     *ref.StructDef
-	ty     *ref.Type
-	decode func(b []byte) (*ref.Value, error) // implementation; may panic
-	// baselines
-	bases  [][]byte
-	suffix string // appended to signatures (separate decoder code)
-}
-
-// sign appends the subject's suffix to the signature classes that arise in
-// the subject's own decoding code (partial containers, zero-filled buffers,
-// panics); short reads, partial strings and type checks sit in codec.Reader
-// whoever calls it.
-func (s *subject) sign(sig string) string {
-	if s.suffix != "" && (strings.HasPrefix(sig, "partial-container:") || strings.HasPrefix(sig, "zero-filled:") || strings.HasPrefix(sig, "panic:")) {
-		return sig + s.suffix
-	}
-	return sig
-}
-
-// ---------------------------------------------------------------- subjects
-
-func structSubject(st *ref.StructDef, mk func() tarsStruct) *subject {
-	ty := ref.StructOf(st)
-	return &subject{name: st.QName(), class: "struct", st: st, ty: ty, decode: func(b []byte) (*ref.Value, error) {
-		g := mk()
-		if err := g.ReadFrom(codec.NewReader(b)); err != nil {
-			return nil, err
-		}
-		return ref.FromGo(ty, reflect.ValueOf(g).Elem())
-	}}
-}
-
-func blockSubject(st *ref.StructDef, mk func() tarsStruct, tag uint8) *subject {
-	inner := ref.StructOf(st)
-	holder := ref.NewStruct("verif", "Block_"+st.Name, ref.Req(tag, "s", inner))
-	return &subject{name: fmt.Sprintf("block(%s,tag %d)", st.QName(), tag), class: "block", st: holder, ty: ref.StructOf(holder),
-		decode: func(b []byte) (*ref.Value, error) {
-			g := mk()
-			if err := g.ReadBlock(codec.NewReader(b), tag, true); err != nil {
-				return nil, err
-			}
-			v, err := ref.FromGo(inner, reflect.ValueOf(g).Elem())
-			if err != nil {
-				return nil, err
-			}
-			return ref.VStruct(v), nil
-		}}
-}
-
-func primSubject(t *ref.Type, tag uint8, require bool) *subject {
-	m := &ref.Member{Tag: tag, Name: "v", Require: require, Type: t}
-	st := ref.NewStruct("verif", fmt.Sprintf("Prim_%s_%d_%v", t.Kind, tag, require), m)
-	s := &subject{name: fmt.Sprintf("prim(%s,tag %d,require=%v)", t.Kind, tag, require), class: "prim", st: st, ty: ref.StructOf(st)}
-	s.decode = func(b []byte) (*ref.Value, error) {
-		r := codec.NewReader(b)
-		var v *ref.Value
-		var err error
-		switch t.Kind {
-		case ref.KBool:
-			var x bool
-			err = r.ReadBool(&x, tag, require)
-			v = ref.VBool(x)
-		case ref.KInt8:
-			var x int8
-			err = r.ReadInt8(&x, tag, require)
-			v = ref.VInt(t.Kind, int64(x))
-		case ref.KUint8:
-			var x uint8
-			err = r.ReadUint8(&x, tag, require)
-			v = ref.VInt(t.Kind, int64(x))
-		case ref.KInt16:
-			var x int16
-			err = r.ReadInt16(&x, tag, require)
-			v = ref.VInt(t.Kind, int64(x))
-		case ref.KUint16:
-			var x uint16
-			err = r.ReadUint16(&x, tag, require)
-			v = ref.VInt(t.Kind, int64(x))
-		case ref.KInt32:
-			var x int32
-			err = r.ReadInt32(&x, tag, require)
-			v = ref.VInt(t.Kind, int64(x))
-		case ref.KUint32:
-			var x uint32
-			err = r.ReadUint32(&x, tag, require)
-			v = ref.VInt(t.Kind, int64(x))
-		case ref.KInt64:
-			var x int64
-			err = r.ReadInt64(&x, tag, require)
-			v = ref.VInt(t.Kind, x)
-		case ref.KFloat:
-			var x float32
-			err = r.ReadFloat32(&x, tag, require)
-			v = ref.VFloatOf(x)
-		case ref.KDouble:
-			var x float64
-			err = r.ReadFloat64(&x, tag, require)
-			v = ref.VDoubleOf(x)
-		case ref.KString:
-			var x string
-			err = r.ReadString(&x, tag, require)
-			v = ref.VString(x)
-		}
-		if err != nil {
-			return nil, err
-		}
-		return ref.VStruct(v), nil
-	}
-	return s
-}
-
-// sliceSubject decodes a byte vector exactly the way tars2go's output does
-// (cf. RequestPacket.sBuffer in RequestF.go).
-func sliceSubject(unsigned bool, tag uint8) *subject {
-	et := ref.TInt8
-	if unsigned {
-		et = ref.TUint8
-	}
-	t := ref.VectorOf(et)
-	st := ref.NewStruct("verif", fmt.Sprintf("Slice_%s_%d", et.Kind, tag), ref.Req(tag, "v", t))
-	s := &subject{name: fmt.Sprintf("slice(vector<%s>,tag %d)", et.Kind, tag), class: "slice", st: st, ty: ref.StructOf(st)}
-	s.decode = func(b []byte) (*ref.Value, error) {
-		r := codec.NewReader(b)
-		var length int32
-		var out []byte
-		_, ty, err := r.SkipToNoCheck(tag, true)
-		if err != nil {
-			return nil, err
-		}
-		switch ty {
-		case codec.LIST:
-			if err = r.ReadInt32(&length, 0, true); err != nil {
-				return nil, err
-			}
-			if length < 0 || length > 1<<24 {
-				return nil, fmt.Errorf("harness: refusing to allocate %d elements", length)
-			}
-			out = make([]byte, length)
-			for i := int32(0); i < length; i++ {
-				if unsigned {
-					var x uint8
-					err = r.ReadUint8(&x, 0, true)
-					out[i] = x
-				} else {
-					var x int8
-					err = r.ReadInt8(&x, 0, true)
-					out[i] = byte(x)
-				}
-				if err != nil {
-					return nil, err
-				}
-			}
-		case codec.SimpleList:
-			if _, err = r.SkipTo(codec.BYTE, 0, true); err != nil {
-				return nil, err
-			}
-			if err = r.ReadInt32(&length, 0, true); err != nil {
-				return nil, err
-			}
-			if unsigned {
-				var x []uint8
-				err = r.ReadSliceUint8(&x, length, true)
-				out = x
-			} else {
-				var x []int8
-				err = r.ReadSliceInt8(&x, length, true)
-				out = codec.FromInt8(x)
-			}
-			if err != nil {
-				return nil, err
-			}
-		default:
-			return nil, fmt.Errorf("require vector, but not")
-		}
-		return ref.VStruct(ref.VBytes(out)), nil
-	}
-	return s
-}
-
-func tupSubject() *subject {
-	t := ref.MapOf(ref.TString, ref.VectorOf(ref.TUint8))
-	st := ref.NewStruct("verif", "TupAttributes", ref.Req(0, "data", t))
-	s := &subject{name: "tup.UniAttribute", class: "tup", st: st, ty: ref.StructOf(st), suffix: "@tup"}
-	s.decode = func(b []byte) (*ref.Value, error) {
-		u := tup.NewUniAttribute()
-		if err := u.Decode(codec.NewReader(b)); err != nil {
-			return nil, err
-		}
-		f := reflect.ValueOf(u).Elem().FieldByName("data")
-		m := reflect.NewAt(f.Type(), unsafe.Pointer(f.UnsafeAddr())).Elem()
-		v, err := ref.FromGo(t, m)
-		if err != nil {
-			return nil, err
-		}
-		return ref.VStruct(v), nil
-	}
-	return s
-}
-
-// ---------------------------------------------------------------- lattices for C06
-
-// c06Lattice: values that exercise every wire width / string form once; the
-// point of this check is where an encoding can be cut, not the value space.
-func c06Lattice(t *ref.Type, rich bool) []*ref.Value {
-	switch {
-	case t.Kind == ref.KString:
-		lens := []int{0, 1, 3, 255, 256}
-		if !rich {
-			lens = []int{0, 3, 256}
-		}
-		var out []*ref.Value
-		for _, n := range lens {
-			out = append(out, ref.VString(string(ref.FillBytes(n, 2))))
-		}
-		return out
-	case t.Kind == ref.KVector && t.IsBytes():
-		lens := []int{0, 1, 3, 255, 256}
-		if !rich {
-			lens = []int{0, 3, 256}
-		}
-		var out []*ref.Value
-		for _, n := range lens {
-			out = append(out, ref.VBytes(ref.FillBytes(n, 2)))
-		}
-		return out
-	case t.Kind == ref.KFloat:
-		return []*ref.Value{ref.VFloat(0), ref.VFloat(0x3fc00001), ref.VFloat(0x7fc00000)}
-	case t.Kind == ref.KDouble:
-		return []*ref.Value{ref.VDouble(0), ref.VDouble(0x3ff8000000000001), ref.VDouble(0xfff0000000000000)}
-	case t.Kind == ref.KEnum:
-		return ref.Lattice(t, ref.Small)[:min(4, len(ref.Lattice(t, ref.Small)))]
-	case t.Kind.IsInteger():
-		lo, hi := t.Kind.IntRange()
-		var out []*ref.Value
-		for _, x := range []int64{0, 1, -1, 127, -128, 128, -129, 255, 0x1234, -0x1235, 32767, -32768, 32768, 65535, 0x12345678, -0x12345679, 1<<31 - 1, -1 << 31, 1 << 31, 4294967295, 0x123456789abcdef0, -1 << 63} {
-			if x >= lo && x <= hi {
-				out = append(out, ref.VInt(t.Kind, x))
-			}
-		}
-		if !rich && len(out) > 8 {
-			// one value per width and sign
-			keep := map[ref.WireType]int{}
-			var o2 []*ref.Value
-			for _, v := range out {
-				w := ref.NarrowestInt(v.Int)
-				if keep[w] < 2 {
-					keep[w]++
-					o2 = append(o2, v)
-				}
-			}
-			out = o2
-		}
-		return out
-	}
-	return ref.Lattice(t, ref.Small)
-}
-
-// ---------------------------------------------------------------- cases
-
-// Case is what a replay file stores.
-type Case struct {
-	Subject  string `json:"subject"`
-	Kind     string `json:"mutation"` // baseline | prefix | inflate | substitute | simplelist-head
-	Detail   string `json:"detail"`
-	Baseline string `json:"baseline_hex"`
-	Input    string `json:"input_hex"`
-	Sig      string `json:"signature_stem,omitempty"` // label used when the input is accepted wrongly
-}
-
-type viol struct {
-	sig   string
-	what  string
-	c     Case
-	size  int
-	count uint64
-}
-
-type stats struct {
-	baselines, cases, nontrivial uint64
-	rejected, acceptedOK         uint64
-	byKind                       map[string]uint64
-	viols                        map[string]*viol
-	notes                        map[string]uint64
-	maxInput                     int
-	scratch                      []byte
-	implRuns                     uint64
-	infra                        []string
-}
-
-func newStats() *stats {
-	return &stats{byKind: map[string]uint64{}, viols: map[string]*viol{}, notes: map[string]uint64{}}
-}
-
-// report counts a violating case; the description is only built when the
-// case is the first or the smallest of its signature.
-func (s *stats) report(sig string, size int, describe func() (string, Case)) {
-	v := s.viols[sig]
-	if v == nil {
-		what, c := describe()
-		s.viols[sig] = &viol{sig: sig, what: what, c: c, size: size, count: 1}
-		return
-	}
-	v.count++
-	if size < v.size {
-		v.what, v.c = describe()
-		v.size = size
-	}
-}
-
-func (s *stats) merge(o *stats) {
-	s.baselines += o.baselines
-	s.cases += o.cases
-	s.nontrivial += o.nontrivial
-	s.rejected += o.rejected
-	s.acceptedOK += o.acceptedOK
-	s.implRuns += o.implRuns
-	for k, n := range o.byKind {
-		s.byKind[k] += n
-	}
-	for k, n := range o.notes {
-		s.notes[k] += n
-	}
-	if o.maxInput > s.maxInput {
-		s.maxInput = o.maxInput
-	}
-	s.infra = append(s.infra, o.infra...)
-	for sig, v := range o.viols {
-		m := s.viols[sig]
-		if m == nil {
-			c := *v
-			s.viols[sig] = &c
-			continue
-		}
-		m.count += v.count
-		if v.size < m.size { // strict: on ties the earlier unit wins
-			m.what, m.c, m.size = v.what, v.c, v.size
-		}
-	}
-}
-
-func panicSite(stack []byte) string {
-	for _, ln := range strings.Split(string(stack), "\n") {
-		if i := strings.Index(ln, "TarsGo/tars/"); i >= 0 && !strings.HasPrefix(ln, "\t") {
-			f := ln[i+len("TarsGo/tars/"):]
-			if j := strings.LastIndex(f, "("); j > 0 {
-				f = f[:j]
-			}
-			return f
-		}
-	}
-	return "unknown"
-}
-
-// runImpl runs the implementation's decoder, recovering panics.
-func runImpl(s *subject, in []byte) (v *ref.Value, err error, panicked string) {
-	defer func() {
-		if r := recover(); r != nil {
-			panicked = fmt.Sprintf("%v @ %s", r, panicSite(debug.Stack()))
-			v, err = nil, nil
-		}
-	}()
-	v, err = s.decode(in)
-	return
-}
-
-func hexClip(b []byte) string {
-	if len(b) > 48 {
-		return hex.EncodeToString(b[:48]) + fmt.Sprintf("…(%d bytes)", len(b))
-	}
-	return hex.EncodeToString(b)
-}
-
-// where names the place at which the input stops making sense.
-type where struct {
-	node     *ref.Node
-	part     ref.Part
-	parent   *ref.Node
-	boundary bool // the cut is exactly in front of node
-}
-
-func locate(fields []*ref.Node, parent *ref.Node, off int) where {
-	for _, f := range fields {
-		if off < f.Start || off >= f.End {
-			continue
-		}
-		if off == f.Start {
-			return where{node: f, parent: parent, boundary: true}
-		}
-		if off < f.HeadEnd {
-			return where{node: f, part: ref.PartHead, parent: parent}
-		}
-		if f.LenEnd > f.LenStart && off < f.LenEnd {
-			if off < f.LenStart {
-				return where{node: f, part: ref.PartHead, parent: parent} // SimpleList element head
-			}
-			if f.Len != nil && off > f.Len.Start {
-				return where{node: f.Len, part: ref.PartPayload, parent: f}
-			}
-			return where{node: f, part: ref.PartLength, parent: parent}
-		}
-		if len(f.Kids) > 0 && off < f.Kids[len(f.Kids)-1].End {
-			return locate(f.Kids, f, off)
-		}
-		switch f.Type {
-		case ref.WList, ref.WMap, ref.WStructBegin:
-			return where{node: f, part: ref.PartBody, parent: parent}
-		}
-		return where{node: f, part: ref.PartPayload, parent: parent}
-	}
-	return where{}
-}
-
-func (w where) signature() string {
-	if w.node == nil {
-		return "accepted:unlocated"
-	}
-	if w.boundary {
-		if w.parent == nil {
-			return "missing-required-accepted"
-		}
-		return "partial-container:" + w.parent.Type.String()
-	}
-	t := w.node.Type
-	switch w.part {
-	case ref.PartHead:
-		return "cut-head:" + t.String()
-	case ref.PartLength:
-		if t == ref.WString1 || t == ref.WString4 {
-			return "short-read:" + t.String() + "-length"
-		}
-		return "cut-length:" + t.String()
-	case ref.PartBody:
-		return "partial-container:" + t.String()
-	}
-	switch t {
-	case ref.WString1, ref.WString4:
-		return "partial-string:" + t.String()
-	case ref.WSimpleList:
-		return "zero-filled:SimpleList"
-	}
-	return "short-read:" + t.String()
-}
-
-// judge runs one mutated input and applies the oracle.
-//
-//	kind prefix/inflate: error, or the value of the complete fields present
-//	kind substitute/simplelist-head: error
-func judge(s *subject, st *stats, base, in []byte, kind string, detailf func() string, sigIfAccepted func() string) {
-	st.cases++
-	st.byKind[kind]++
-	if len(in) > st.maxInput {
-		st.maxInput = len(in)
-	}
-	mk := func() Case {
-		return Case{Subject: s.name, Kind: kind, Detail: detailf(), Baseline: hex.EncodeToString(base), Input: hex.EncodeToString(in)}
-	}
-	// reference
-	rv, consumed, perr, derr := ref.DecodePrefix(s.st, in)
-	strictOK := perr == nil && derr == nil
-	if !strictOK {
-		st.nontrivial++
-	}
-	mustReject := false
-	switch kind {
-	case "substitute", "simplelist-head":
-		mustReject = true
-		if strictOK {
-			st.infra = append(st.infra, fmt.Sprintf("reference accepts the %s case %s of %s: %s", kind, detailf(), s.name, hex.EncodeToString(in)))
-			return
-		}
-	default:
-		switch ref.CodeOf(perr) {
-		case ref.ErrNone, ref.ErrTruncated, ref.ErrLength, ref.ErrStructEnd:
-		default:
-			st.infra = append(st.infra, fmt.Sprintf("reference fails with %v on the %s case %s of %s: %s", perr, kind, detailf(), s.name, hex.EncodeToString(in)))
-			return
-		}
-	}
-	st.implRuns++
-	iv, ierr, panicked := runImpl(s, in)
-	if panicked != "" {
-		site := panicked[strings.LastIndex(panicked, "@ ")+2:]
-		st.report(s.sign("panic:"+site), len(in), func() (string, Case) {
-			return fmt.Sprintf("%s: %s (%s) makes the decoder panic: %s; input %s", s.name, kind, detailf(), panicked, hexClip(in)), mk()
-		})
-		return
-	}
-	if ierr != nil {
-		st.rejected++
-		return
-	}
-	if !mustReject && derr == nil {
-		if d := ref.Diff(s.ty, rv, iv); d == "" {
-			st.acceptedOK++
-			return
-		}
-	}
-	// accepted, but not with the value of the complete fields present
-	stem := sigIfAccepted()
-	sig := stem
-	if strictOK {
-		sig = "value-mismatch:" + kind
-	}
-	st.report(s.sign(sig), len(in), func() (string, Case) {
-		var exp string
-		switch {
-		case mustReject:
-			exp = fmt.Sprintf("an error (reference: %v)", firstErr(perr, derr))
-		case derr != nil:
-			exp = fmt.Sprintf("an error (reference: %v; the complete fields end at offset %d: %v)", perr, consumed, derr)
-		case strictOK:
-			exp = "the value " + ref.Format(s.ty, rv)
-		default:
-			exp = fmt.Sprintf("an error, or the value of the %d bytes of complete fields %s (reference: %v)", consumed, ref.Format(s.ty, rv), perr)
-		}
-		c := mk()
-		c.Sig = stem
-		return fmt.Sprintf("%s: %s (%s): input %s decodes without error to %s; expected %s",
-			s.name, kind, detailf(), hexClip(in), ref.Format(s.ty, iv), exp), c
-	})
-}
-
-func firstErr(a, b error) error {
-	if a != nil {
-		return a
-	}
-	return b
-}
-
-func uniq(xs []int64) []int64 {
-	sort.Slice(xs, func(i, j int) bool { return xs[i] < xs[j] })
-	o := xs[:0]
-	for i, x := range xs {
-		if i == 0 || x != xs[i-1] {
-			o = append(o, x)
-		}
-	}
-	return o
-}
-
-// mutate enumerates every case derived from one baseline encoding.
-func mutate(s *subject, st *stats, base []byte) {
-	st.baselines++
-	fields, err := ref.Parse(base)
-	if err != nil {
-		st.infra = append(st.infra, fmt.Sprintf("baseline of %s does not parse: %v", s.name, err))
-		return
-	}
-	want, err := ref.Decode(s.st, base)
-	if err != nil {
-		st.infra = append(st.infra, fmt.Sprintf("baseline of %s rejected by the reference: %v", s.name, err))
-		return
-	}
-	// the unmodified baseline must decode to its value, or nothing below means anything
-	st.implRuns++
-	iv, ierr, panicked := runImpl(s, base)
-	bc := Case{Subject: s.name, Kind: "baseline", Baseline: hex.EncodeToString(base), Input: hex.EncodeToString(base)}
-	switch {
-	case panicked != "":
-		st.report("baseline:panic:"+s.class, len(base), func() (string, Case) {
-			return fmt.Sprintf("%s panics on the valid encoding %s: %s", s.name, hexClip(base), panicked), bc
-		})
-		return
-	case ierr != nil:
-		if s.class == "tup" && tupEndsWithEmptyValue(fields) {
-			// Decode(Encode(x)) fails when the last attribute is empty (ReadBytes returns
-			// io.EOF for a zero-length read at the end of input): a defect, but not one
-			// of truncated or mistyped input; noted, and the baseline is not used.
-			st.notes["tup: valid attribute set whose last value is empty is rejected with "+ierr.Error()]++
-			return
-		}
-		st.report("baseline:rejected:"+s.class, len(base), func() (string, Case) {
-			return fmt.Sprintf("%s rejects the valid encoding %s: %v", s.name, hexClip(base), ierr), bc
-		})
-		return
-	}
-	if d := ref.Diff(s.ty, want, iv); d != "" {
-		st.report("baseline:value:"+s.class, len(base), func() (string, Case) {
-			return fmt.Sprintf("%s decodes the valid encoding %s differently from the reference: %s", s.name, hexClip(base), d), bc
-		})
-		return
-	}
-
-	// (a) every proper prefix
-	for i := 0; i < len(base); i++ {
-		i := i
-		judge(s, st, base, base[:i], "prefix", func() string { return fmt.Sprintf("first %d of %d bytes", i, len(base)) }, func() string {
-			return locate(fields, nil, i).signature()
-		})
-	}
-
-	// (b) every embedded length inflated beyond what remains
-	var walk func(ns []*ref.Node, parent *ref.Node)
-	walk = func(ns []*ref.Node, parent *ref.Node) {
-		for _, n := range ns {
-			n := n
-			if n.LenEnd > n.LenStart {
-				remaining := int64(len(base) - n.LenEnd)
-				sig := func() string { return where{node: n, part: ref.PartPayload, parent: parent}.sigInflate() }
-				switch n.Type {
-				case ref.WString1:
-					for l := remaining + 1; l <= 255; l++ {
-						in := append(st.scratch[:0], base...)
-						st.scratch = in
-						in[n.LenStart] = byte(l)
-						l := l
-						judge(s, st, base, in, "inflate", func() string {
-							return fmt.Sprintf("STRING1 length at offset %d: %d -> %d, %d bytes remain", n.LenStart, len(n.Data), l, remaining)
-						}, sig)
-					}
-				case ref.WString4:
-					for _, l := range uniq([]int64{remaining + 1, remaining + 2, remaining + 255, 65536, 1 << 20, 1<<31 - 1, 1 << 31, 1<<32 - 1}) {
-						if l <= remaining {
-							continue
-						}
-						in := append(st.scratch[:0], base...)
-						st.scratch = in
-						binary.BigEndian.PutUint32(in[n.LenStart:], uint32(l))
-						l := l
-						judge(s, st, base, in, "inflate", func() string {
-							return fmt.Sprintf("STRING4 length at offset %d: %d -> %d, %d bytes remain", n.LenStart, len(n.Data), l, remaining)
-						}, sig)
-					}
-				case ref.WSimpleList, ref.WList, ref.WMap:
-					cands := []int64{remaining + 1, remaining + 2, 127, 128, 255, 256, 32767, 32768, 65536}
-					switch n.Type {
-					case ref.WSimpleList:
-						cands = append(cands, 1<<20)
-					case ref.WMap:
-						cands = append(cands, remaining/2+1)
-					}
-					old := int64(len(n.Kids))
-					if n.Type == ref.WSimpleList {
-						old = int64(len(n.Data))
-					} else if n.Type == ref.WMap {
-						old /= 2
-					}
-					for _, l := range uniq(cands) {
-						if l <= remaining && !(n.Type == ref.WMap && 2*l > remaining) {
-							continue
-						}
-						if l <= old {
-							continue
-						}
-						in := append(st.scratch[:0], base[:n.LenStart]...)
-						in = ref.AppendInt(in, 0, l)
-						in = append(in, base[n.LenEnd:]...)
-						st.scratch = in
-						l := l
-						judge(s, st, base, in, "inflate", func() string {
-							return fmt.Sprintf("%s length at offset %d: %d -> %d, %d bytes remain", n.Type, n.LenStart, old, l, remaining)
-						}, sig)
-					}
-				}
-			}
-			walk(n.Kids, n)
-		}
-	}
-	walk(fields, nil)
-
-	// (c) every field, at any level, replaced by a well-formed field of every inadmissible wire type
-	ref.TypedWalk(s.st, fields, func(tn ref.TypedNode) {
-		for _, alt := range ref.WellFormedAlternatives(tn.Node.Tag) {
-			if tn.Type.Admissible(alt.Type) {
-				continue
-			}
-			ab := alt.Bytes()
-			in := append(st.scratch[:0], base[:tn.Node.Start]...)
-			in = append(in, ab...)
-			in = append(in, base[tn.Node.End:]...)
-			st.scratch = in
-			alt := alt
-			judge(s, st, base, in, "substitute", func() string {
-				return fmt.Sprintf("%s (%s, tag %d, offset %d) replaced by %s %x", tn.Path, tn.Type, tn.Node.Tag, tn.Node.Start, alt.Type, ab)
-			},
-				func() string { return "mistyped-accepted:" + tn.Type.ShortName() + "-as-" + alt.Type.String() })
-		}
-	})
-
-	// (d) SimpleList element head: every other type code
-	var heads func(ns []*ref.Node)
-	heads = func(ns []*ref.Node) {
-		for _, n := range ns {
-			if n.Type == ref.WSimpleList {
-				for code := byte(1); code <= 13; code++ {
-					in := append(st.scratch[:0], base...)
-					st.scratch = in
-					in[n.HeadEnd] = code
-					c := ref.WireType(code)
-					judge(s, st, base, in, "simplelist-head", func() string { return fmt.Sprintf("SimpleList at offset %d: element head BYTE -> %s", n.Start, c) },
-						func() string { return "mistyped-accepted:simplelist-head-as-" + c.String() })
-				}
-			}
-			heads(n.Kids)
-		}
-	}
-	heads(fields)
-}
-
-func (w where) sigInflate() string {
-	switch w.node.Type {
-	case ref.WString1, ref.WString4:
-		return "partial-string:" + w.node.Type.String()
-	case ref.WSimpleList:
-		return "zero-filled:SimpleList"
-	}
-	return "partial-container:" + w.node.Type.String()
-}
-
-func tupEndsWithEmptyValue(fields []*ref.Node) bool {
-	if len(fields) != 1 || fields[0].Type != ref.WMap || len(fields[0].Kids) == 0 {
-		return false
-	}
-	last := fields[0].Kids[len(fields[0].Kids)-1]
-	return last.Type == ref.WSimpleList && len(last.Data) == 0
-}
-
-// ---------------------------------------------------------------- baselines
-
-// structBaselines: both baselines, all deviations of at most k members over
-// the C06 lattice, each in the canonical encoding, with explicit defaults,
-// and (if the struct has byte vectors) with byte vectors as LIST.
-func structBaselines(st *ref.StructDef, k int, rich bool, wrap func([]byte) []byte) [][]byte {
-	seen := map[string]bool{}
-	var out [][]byte
-	hasBytes := false
-	for _, m := range st.Members {
-		if m.Type.IsBytes() {
-			hasBytes = true
-		}
-	}
-	opts := []ref.EncodeOptions{{}, {KeepDefaults: true}}
-	if hasBytes {
-		opts = append(opts, ref.EncodeOptions{BytesAsList: true})
-	}
-	d, n := ref.Baselines(st)
-	for _, base := range []*ref.Value{d, n} {
-		ref.Deviations(st, base, k, func(m *ref.Member) []*ref.Value { return c06Lattice(m.Type, rich) }, func(v *ref.Value, _ []int) bool {
-			for _, o := range opts {
-				b := ref.MustEncode(st, v, o)
-				if wrap != nil {
-					b = wrap(b)
-				}
-				if !seen[string(b)] {
-					seen[string(b)] = true
-					out = append(out, b)
-				}
-			}
-			return true
-		})
-	}
-	return out
-}
-
-func tupBaselines(thorough bool) [][]byte {
-	t := ref.MapOf(ref.TString, ref.VectorOf(ref.TUint8))
-	enc := func(kv ...*ref.Value) []byte {
-		n, err := ref.ToNode(t, 0, ref.VMap(kv...), ref.EncodeOptions{})
-		if err != nil {
-			panic(err)
-		}
-		return n.Bytes()
-	}
-	str := func(n int) *ref.Value { return ref.VString(string(ref.FillBytes(n, 2))) }
-	byt := func(n int) *ref.Value { return ref.VBytes(ref.FillBytes(n, 2)) }
-	inner := ref.NStr(0, []byte("tars-attribute")).Bytes() // a typical attribute: an encoded field
-	out := [][]byte{
-		enc(),
-		enc(str(1), byt(1)),
-		enc(str(1), byt(0)),
-		enc(str(0), byt(2)),
-		enc(str(3), ref.VBytes(inner)),
-		enc(str(1), byt(3), str(2), byt(1)),
-		enc(str(1), byt(0), str(2), byt(2)),
-		enc(str(2), byt(2), str(1), byt(0)),
-		enc(str(1), byt(255)),
-		enc(str(1), byt(256)),
-		enc(str(255), byt(1)),
-		enc(str(256), byt(1)),
-		enc(str(1), byt(1), str(2), byt(2), str(3), byt(3)),
-	}
-	if thorough {
-		for _, kl := range []int{0, 1, 2, 255, 256} {
-			for _, vl := range []int{0, 1, 2, 127, 128, 255, 256, 300} {
-				out = append(out, enc(str(kl), byt(vl)), enc(str(kl), byt(vl), str(kl+1), byt(1)))
-			}
-		}
-	}
-	return out
-}
-
-// ---------------------------------------------------------------- main
-
-type unit struct {
-	s      *subject
-	lo, hi int
-}
-
-func main() {
-	run := common.Start("C06", "model_checking")
-	if run.Replay != "" {
-		replay(run)
-		return
-	}
-	// tiny live heap + high allocation rate: let the heap grow instead of collecting thousands of times a second
-	debug.SetGCPercent(800)
-	thorough := run.Thorough()
-	start := time.Now()
-	deadline := start.Add(100 * time.Second)
-	if thorough {
-		deadline = start.Add(9 * time.Minute)
-	}
-	subjects, err := buildSubjects(thorough)
-	if err != nil {
-		run.InfraError("%v", err)
-		run.Finish(nil, nil)
-	}
-
-	buildTime := time.Since(start).Seconds()
-	var units []unit
-	totalBases := 0
-	for _, s := range subjects {
-		totalBases += len(s.bases)
-		for i := range s.bases {
-			units = append(units, unit{s, i, i + 1}) // one baseline = one unit of work
-		}
-	}
-	order := make([]int, len(units))
-	for i := range order {
-		order[i] = i
-	}
-	if run.Seed != 0 { // only the order in which units are taken changes
-		x := uint64(run.Seed)
-		for i := len(order) - 1; i > 0; i-- {
-			x = x*6364136223846793005 + 1442695040888963407
-			j := int((x >> 33) % uint64(i+1))
-			order[i], order[j] = order[j], order[i]
-		}
-	}
-	results := make([]*stats, len(units))
-	var next atomic.Int64
-	var skipped atomic.Int64
-	var wg sync.WaitGroup
-	nw := runtime.GOMAXPROCS(0)
-	for i := 0; i < nw; i++ {
-		wg.Add(1)
-		go func() {
-			defer wg.Done()
-			for {
-				k := int(next.Add(1)) - 1
-				if k >= len(order) {
-					return
-				}
-				u := units[order[k]]
-				st := newStats()
-				if time.Now().After(deadline) {
-					skipped.Add(1)
-				} else {
-					for _, b := range u.s.bases[u.lo:u.hi] {
-						mutate(u.s, st, b)
-					}
-				}
-				results[order[k]] = st
-			}
-		}()
-	}
-	wg.Wait()
-
-	total := newStats()
-	perClass := map[string]*stats{}
-	perSubject := map[string]uint64{}
-	for i, r := range results {
-		total.merge(r)
-		c := units[i].s.class
-		if perClass[c] == nil {
-			perClass[c] = newStats()
-		}
-		perClass[c].merge(r)
-		perSubject[units[i].s.name] += r.cases
-	}
-	for i, m := range total.infra {
-		if i < 5 {
-			run.InfraError("%s", m)
-		}
-	}
-	sigs := make([]string, 0, len(total.viols))
-	for sig := range total.viols {
-		sigs = append(sigs, sig)
-	}
-	sort.Strings(sigs)
-	bySig := map[string]uint64{}
-	for _, sig := range sigs {
-		v := total.viols[sig]
-		bySig[sig] = v.count
-		run.Violation(sig, fmt.Sprintf("%s [%d cases with this signature; smallest input shown]", v.what, v.count), v.c)
-	}
-	notes := make([]string, 0, len(total.notes))
-	for n := range total.notes {
-		notes = append(notes, n)
-	}
-	sort.Strings(notes)
-	for _, n := range notes {
-		run.Note("%s (%d baselines)", n, total.notes[n])
-	}
-	exhaustive := skipped.Load() == 0
-	if !exhaustive {
-		run.Note("internal deadline reached: %d of %d units not run", skipped.Load(), len(units))
-	}
-	classCov := map[string]any{}
-	for c, s := range perClass {
-		classCov[c] = map[string]any{"baselines": s.baselines, "cases": s.cases, "by_mutation": s.byKind}
-	}
-	k := 1
-	if thorough {
-		k = 2
-	}
-	samples := []string{}
-	if len(subjects) > 0 && len(subjects[0].bases) > 1 {
-		b := subjects[0].bases[len(subjects[0].bases)-1]
-		samples = append(samples, fmt.Sprintf("%s baseline %s", subjects[0].name, hexClip(b)),
-			fmt.Sprintf("%s prefix %s", subjects[0].name, hexClip(b[:len(b)/2])))
-	}
-	for _, sig := range sigs {
-		if len(samples) < 8 {
-			samples = append(samples, fmt.Sprintf("%s: %s input %s", sig, total.viols[sig].c.Subject, total.viols[sig].c.Input))
-		}
-	}
-	cov := map[string]any{
-		"states":                        total.baselines + total.cases,
-		"transitions":                   total.cases,
-		"traces_validated_against_impl": total.implRuns,
-		"evaluations":                   total.cases,
-		"distinct_nontrivial":           total.nontrivial,
-		"baselines":                     total.baselines,
-		"cases_by_mutation":             total.byKind,
-		"cases_by_subject_class":        classCov,
-		"subjects":                      len(subjects),
-		"rejected_by_impl":              total.rejected,
-		"accepted_with_reference_value": total.acceptedOK,
-		"violating_cases_by_signature":  bySig,
-		"longest_input_bytes":           total.maxInput,
-		"units":                         len(units),
-		"workers":                       nw,
-		"baseline_generation_s":         buildTime,
-		"samples":                       samples,
-		"exhaustive":                    exhaustive,
-		"bounds": map[string]any{
-			"deviation_bound_k": k,
-			"struct_baselines":  "all-default and all-non-default baselines of each of the 24 res structs, every replacement of <=k members by a C06 lattice value (one value per integer width and sign, string/byte-vector lengths across the STRING1/STRING4 and 1/2-byte length boundary, containers of 0/1/2 elements), each in canonical form, with explicit defaults, and with byte vectors as LIST",
-			"block":             "the same structs framed by StructBegin/StructEnd at tag 0 (thorough: also tag 200), deviation bound 1 over a reduced lattice",
-			"prim":              "11 primitive types x require/optional x tags {0,14,15,255} x C06 lattice",
-			"slice":             "vector<byte> and vector<unsigned byte> x tags {0,15} x lengths {0,1,3,255,256} as SimpleList and as LIST",
-			"tup":               "hand-listed attribute sets (0-3 entries, key/value lengths 0,1,2,3,255,256; more length pairs in thorough)",
-			"prefix":            "every proper prefix of every baseline",
-			"inflate":           "STRING1: every length > remaining up to 255; STRING4: remaining+1, +2, +255, 65536, 2^20, 2^31-1, 2^31, 2^32-1; LIST/MAP/SimpleList: remaining+1, +2, 127, 128, 255, 256, 32767, 32768, 65536 (SimpleList also 2^20, MAP also remaining/2+1), each only if > remaining; never a length that makes the implementation allocate more than ~2 MiB",
-			"substitute":        "every field at every nesting level x every well-formed alternative (21 fields covering the 13 field wire types) whose wire type is inadmissible for the schema type",
-			"simplelist_head":   "element head of every SimpleList set to each other type code 1..13",
-			"negative_lengths":  "not enumerated here (C05)",
-		},
-		"rule": "cases = (subject, baseline encoding, one mutation); baselines are deduplicated per subject by their bytes; enumeration order is fixed (subjects, baselines, mutations by offset), chunks of baselines are spread over goroutines and merged in chunk order; " +
-			"a case is non-trivial when the strict reference decoder rejects the mutated input (the oracle then demands an error or the value of the complete fields); " +
-			"per signature the smallest violating input is kept",
-	}
-	run.Finish(cov, []string{
-		"the strict reference decoder and the .tars reader (verif/ref) are independent of codec.go and tars2go",
-		"'value determined by the complete fields present' = strict decoding of the longest run of complete top-level fields at the start of the input; the implementation may return that value or an error; for substituted (mistyped) fields only an error is accepted",
-		"inflated lengths are restricted to values larger than the bytes remaining in the whole input (what the property speaks about); lengths between the true length and the remaining bytes re-frame the input and are left to C04/C05",
-		"negative and allocation-hostile lengths are C05's business and are not fed here",
-		"the 'slice' subject replays the call sequence tars2go generates for byte vectors (copied from RequestF.go) because no res struct ends in a byte vector",
-		"tup.UniAttribute's decoded map is read through reflection (unexported field)",
-	})
-}
-
-func buildSubjects(thorough bool) ([]*subject, error) {
-	schema, err := ref.LoadIDLDir(filepath.Join(common.Repo(), "tars/protocol/res"))
-	if err != nil {
-		return nil, err
-	}
-	k := 1
-	if thorough {
-		k = 2
-	}
-	var subjects []*subject
-	structs := schema.AllStructs()
-	if len(structs) != len(goTypes) {
-		return nil, fmt.Errorf(".tars files define %d structs, the harness knows %d Go types", len(structs), len(goTypes))
-	}
-	for _, st := range structs {
-		mk := goTypes[st.QName()]
-		if mk == nil {
-			return nil, fmt.Errorf("no Go type registered for %s", st.QName())
-		}
-		if err := ref.CheckGoType(ref.StructOf(st), reflect.TypeOf(mk()).Elem()); err != nil {
-			return nil, err
-		}
-		s := structSubject(st, mk)
-		s.bases = structBaselines(st, k, true, nil)
-		subjects = append(subjects, s)
-	}
-	for _, st := range structs {
-		for _, tag := range []uint8{0, 200} {
-			if tag == 200 && !thorough {
-				continue
-			}
-			tag := tag
-			s := blockSubject(st, goTypes[st.QName()], tag)
-			s.bases = structBaselines(st, 1, false, func(body []byte) []byte {
-				b := ref.AppendHead(nil, tag, ref.WStructBegin)
-				b = append(b, body...)
-				return ref.AppendHead(b, 0, ref.WStructEnd)
-			})
-			subjects = append(subjects, s)
-		}
-	}
-	for _, t := range ref.Primitives {
-		for _, tag := range []uint8{0, 14, 15, 255} {
-			for _, req := range []bool{true, false} {
-				s := primSubject(t, tag, req)
-				seen := map[string]bool{}
-				for _, v := range c06Lattice(t, true) {
-					for _, o := range []ref.EncodeOptions{{}, {KeepDefaults: true}} {
-						b := ref.MustEncode(s.st, ref.VStruct(v), o)
-						if !seen[string(b)] {
-							seen[string(b)] = true
-							s.bases = append(s.bases, b)
-						}
-					}
-				}
-				subjects = append(subjects, s)
-			}
-		}
-	}
-	for _, unsigned := range []bool{false, true} {
-		for _, tag := range []uint8{0, 15} {
-			s := sliceSubject(unsigned, tag)
-			for _, v := range c06Lattice(s.st.Members[0].Type, true) {
-				for _, o := range []ref.EncodeOptions{{}, {BytesAsList: true}} {
-					s.bases = append(s.bases, ref.MustEncode(s.st, ref.VStruct(v), o))
-				}
-			}
-			subjects = append(subjects, s)
-		}
-	}
-	ts := tupSubject()
-	ts.bases = tupBaselines(thorough)
-	subjects = append(subjects, ts)
-	return subjects, nil
-}
-
-func replay(run *common.Run) {
-	var c Case
-	if err := common.LoadReplay(run.Replay, &c); err != nil {
-		run.InfraError("replay file: %v", err)
-		run.Finish(nil, nil)
-	}
-	subjects, err := buildSubjectsNoBases()
-	if err != nil {
-		run.InfraError("%v", err)
-		run.Finish(nil, nil)
-	}
-	var s *subject
-	for _, x := range subjects {
-		if x.name == c.Subject {
-			s = x
-		}
-	}
-	if s == nil {
-		run.InfraError("replay: unknown subject %q", c.Subject)
-		run.Finish(nil, nil)
-	}
-	base, err1 := hex.DecodeString(c.Baseline)
-	in, err2 := hex.DecodeString(c.Input)
-	if err1 != nil || err2 != nil {
-		run.InfraError("replay: bad hex")
-		run.Finish(nil, nil)
-	}
-	st := newStats()
-	switch c.Kind {
-	case "baseline":
-		mutateBaselineOnly(s, st, base)
-	default:
-		judge(s, st, base, in, c.Kind, func() string { return c.Detail }, func() string { return c.Sig })
-	}
-	iv, ierr, p := runImpl(s, in)
-	fmt.Printf("replayed %s on %s: input %s\n  implementation: value=%s err=%v panic=%q\n", c.Kind, c.Subject, hexClip(in), ref.Format(s.ty, iv), ierr, p)
-	rv, n, perr, derr := ref.DecodePrefix(s.st, in)
-	fmt.Printf("  reference: parse error=%v; complete fields cover %d bytes -> value=%s err=%v\n", perr, n, ref.Format(s.ty, rv), derr)
-	for _, m := range st.infra {
-		run.InfraError("%s", m)
-	}
-	for sig, v := range st.viols {
-		run.Violation(sig, v.what, v.c)
-	}
-	run.Finish(map[string]any{"states": 1, "transitions": 1, "traces_validated_against_impl": st.implRuns, "samples": []string{c.Input}}, nil)
-}
-
-func mutateBaselineOnly(s *subject, st *stats, base []byte) {
-	s2 := *s
-	// run only the baseline sanity step
-	want, err := ref.Decode(s.st, base)
-	if err != nil {
-		st.infra = append(st.infra, err.Error())
-		return
-	}
-	st.implRuns++
-	iv, ierr, p := runImpl(&s2, base)
-	bc := Case{Subject: s.name, Kind: "baseline", Baseline: hex.EncodeToString(base), Input: hex.EncodeToString(base)}
-	switch {
-	case p != "":
-		st.report("baseline:panic:"+s.class, len(base), func() (string, Case) { return p, bc })
-	case ierr != nil:
-		st.report("baseline:rejected:"+s.class, len(base), func() (string, Case) { return ierr.Error(), bc })
-	default:
-		if d := ref.Diff(s.ty, want, iv); d != "" {
-			st.report("baseline:value:"+s.class, len(base), func() (string, Case) { return d, bc })
-		}
-	}
-}
-
-func buildSubjectsNoBases() ([]*subject, error) {
-	schema, err := ref.LoadIDLDir(filepath.Join(common.Repo(), "tars/protocol/res"))
-	if err != nil {
-		return nil, err
-	}
-	var out []*subject
-	for _, st := range schema.AllStructs() {
-		mk := goTypes[st.QName()]
-		if mk == nil {
-			return nil, fmt.Errorf("no Go type registered for %s", st.QName())
-		}
-		out = append(out, structSubject(st, mk), blockSubject(st, mk, 0), blockSubject(st, mk, 200))
-	}
-	for _, t := range ref.Primitives {
-		for _, tag := range []uint8{0, 14, 15, 255} {
-			out = append(out, primSubject(t, tag, true), primSubject(t, tag, false))
-		}
-	}
-	for _, u := range []bool{false, true} {
-		out = append(out, sliceSubject(u, 0), sliceSubject(u, 15))
-	}
-	return append(out, tupSubject()), nil
-}
+func main() { c03lib.Bootstrap("C06") }
